@@ -2,7 +2,7 @@
 
 from __future__ import annotations
 
-from ..rules import structure
+from ..rules import expressions, structure
 from .common import new_run
 
 LEVEL = "proof"
@@ -35,6 +35,8 @@ def check(model, tier):
     structure.r14_4_join_columns(ctx)
     structure.r14_5_noop_identity(ctx)
     structure.r14_6_engine_of_node(ctx)
+    expressions.r13_4_required_columns(ctx, rule="R14.7")
+    structure.r06_1_flags(ctx, rule="R14.8")
     run.assume("every SQL-engine relation handed to the engine is a Select (R17.2, checked under C17)")
     run.assume("Transfer.simplify finds nothing to simplify on the own-engine no-op path (otherwise the call is not a no-op)")
     return run
